@@ -4291,6 +4291,145 @@ run_matrix_case(long idx, const mpair *mp, int pos, int side, const optdef *o, l
 	}
 }
 
+// ---------------------------------------------------------------- ring cases (part of matrix mode)
+// NNG_OPT_SENDBUF / NNG_OPT_RECVBUF changed while the message queue behind it
+// is non-empty AND its contents wrap around the end of the ring: the canonical
+// scripts above never rotate a queue far enough.  Raw sender A -> raw receiver
+// B over inproc; both buffers set to d0; `rot` messages pass through (indices
+// advance); then A sends without B reading until nothing more is accepted (A's
+// send queue and B's receive queue are full, somewhere in their rings); then
+// A.SENDBUF and B.RECVBUF are set to d1 (either order) and B drains.  Judged by
+// ASan/UBSan, the accounting allocator, the ledger and the balance at nng_fini
+// only - what survives a resize is C18's subject.
+static const struct {
+	const char *name;
+	int         pa, pb;
+} rpairs[] = {
+	{ "xpair0", P_PAIR0, P_PAIR0 }, { "xpair1", P_PAIR1, P_PAIR1 }, { "xpush-xpull", P_PUSH, P_PULL },
+	{ "xreq-xrep", P_REQ, P_REP }, { "xsurveyor-xrespondent", P_SURV, P_RESP }, { "xpub-xsub", P_PUB, P_SUB }, { "xbus", P_BUS, P_BUS },
+};
+#define NRPAIRS ((int) (sizeof(rpairs) / sizeof(rpairs[0])))
+
+static void
+run_ring_case(long idx, int rp, int d0, int rot, int d1, bool sendfirst)
+{
+	vf_rng r;
+	mside  X[2];
+	vf_rng_seed(&r, vf_seed, (uint64_t) idx ^ 0x52494e47ULL);
+	snprintf(prog_tag, sizeof(prog_tag), "ring %s d0=%d rot=%d d1=%d %s", rpairs[rp].name, d0, rot, d1, sendfirst ? "send-first" : "recv-first");
+	vf_case_begin(idx, "ring: raw pair %s, buffers %d, %d messages passed through, filled, then SENDBUF/RECVBUF -> %d (%s)", rpairs[rp].name, d0, rot, d1, sendfirst ? "send side first" : "receive side first");
+	vf_watchdog(60);
+	model_reset();
+	vf_nng_init(2, 1, 1);
+	memset(X, 0, sizeof(X));
+	for (int k = 0; k < 2; k++) {
+		X[k].pk    = k == 0 ? rpairs[rp].pa : rpairs[rp].pb;
+		X[k].raw   = true;
+		X[k].pname = PR[X[k].pk].name;
+		if (PR[X[k].pk].open_raw(&X[k].s) != 0) vf_harness_fail("open_raw");
+		nng_socket_set_ms(X[k].s, NNG_OPT_RECVTIMEO, 80);
+		nng_socket_set_ms(X[k].s, NNG_OPT_SENDTIMEO, 80);
+		(void) nng_socket_set_int(X[k].s, NNG_OPT_SENDBUF, d0);
+		(void) nng_socket_set_int(X[k].s, NNG_OPT_RECVBUF, d0);
+	}
+	atomic_fetch_or(&trans_used, 1u << VF_T_INPROC);
+	if (vf_connect(X[1].s, X[0].s, VF_T_INPROC) != 0) vf_harness_fail("ring connect");
+	if (rpairs[rp].pa == P_PUB) vf_msleep(3);
+	long passed = 0, accepted = 0, drained = 0;
+	for (int i = 0; i < rot; i++) {
+		int      slot = -1;
+		nng_msg *m    = build_msg(&r, X[0].pk, true, 0, VF_BODY_MIN + vf_below(&r, 40), &slot);
+		if (m == NULL) vf_harness_fail("ledger full");
+		if (nng_msg_header_len(m) == 0 && (X[0].pk == P_REQ || X[0].pk == P_SURV)) nng_msg_header_append_u32(m, 0x80000000u | (uint32_t) vf_rand(&r));
+		if (nng_msg_header_len(m) == 0 && X[0].pk == P_PAIR1) nng_msg_header_append_u32(m, 0);
+		int rv = nng_sendmsg(X[0].s, m, 0);
+		if (rv == 0) led_give(slot); else led_release(slot, X[0].pname);
+		nng_msg *g = NULL;
+		if (rv == 0 && nng_recvmsg(X[1].s, &g, 0) == 0) {
+			int gs = -1;
+			led_rcv_id = RCV_ID(1, -1);
+			if (led_take(g, L_APP, X[1].pname, "nng_recvmsg", &gs)) {
+				led_free_some(&r, 4);
+				passed++;
+			}
+		}
+	}
+	// fill: nobody reads
+	for (int i = 0; i < 2 * d0 + 12; i++) {
+		int      slot = -1;
+		nng_msg *m    = build_msg(&r, X[0].pk, true, 0, VF_BODY_MIN + vf_below(&r, 40), &slot);
+		if (m == NULL) vf_harness_fail("ledger full");
+		if (nng_msg_header_len(m) == 0 && (X[0].pk == P_REQ || X[0].pk == P_SURV)) nng_msg_header_append_u32(m, 0x80000000u | (uint32_t) vf_rand(&r));
+		if (nng_msg_header_len(m) == 0 && X[0].pk == P_PAIR1) nng_msg_header_append_u32(m, 0);
+		int rv = nng_sendmsg(X[0].s, m, NNG_FLAG_NONBLOCK);
+		if (rv == 0) {
+			led_give(slot);
+			accepted++;
+		} else {
+			led_release(slot, X[0].pname);
+			led_free_some(&r, 4);
+			if (i >= d0 + 4) break;
+			vf_msleep(1);
+		}
+	}
+	vf_msleep(2);
+	for (int k = 0; k < 2; k++) {
+		int side = sendfirst ? k : 1 - k;
+		int rv   = nng_socket_set_int(X[side].s, side == 0 ? NNG_OPT_SENDBUF : NNG_OPT_RECVBUF, d1);
+		vf_stat(rv == 0 ? "opt_sets_ok" : "opt_sets_failed", 1);
+		vf_stat("opt_sets", 1);
+	}
+	for (int idle = 0; idle < 3;) {
+		nng_msg *g = NULL;
+		if (nng_recvmsg(X[1].s, &g, NNG_FLAG_NONBLOCK) == 0) {
+			int gs = -1;
+			led_rcv_id = RCV_ID(1, -1);
+			if (led_take(g, L_APP, X[1].pname, "nng_recvmsg", &gs)) led_free_some(&r, 4);
+			drained++;
+			idle = 0;
+		} else {
+			idle++;
+			vf_msleep(2);
+		}
+	}
+	vf_stat("ring_cases", 1);
+	vf_stat("ring_msgs_passed", passed);
+	vf_stat("ring_msgs_accepted_unread", accepted);
+	vf_stat("ring_msgs_drained_after_resize", drained);
+	vf_class("ring/%s/d0=%d/rot=%d/d1=%d/%s/%s", rpairs[rp].name, d0, rot % (d0 + 2), d1, sendfirst ? "send-first" : "recv-first", drained ? "drained" : "empty");
+	if ((idx & 1) != 0) {
+		nng_socket_close(X[0].s);
+		nng_socket_close(X[1].s);
+	} else {
+		nng_socket_close(X[1].s);
+		nng_socket_close(X[0].s);
+	}
+	vf_stat("calls", 2 * rot + accepted + drained + 16);
+	finish_program();
+}
+
+static long
+run_rings(long idx)
+{
+	static const int d0s[] = { 1, 2, 3, 4 };
+	static const int d1s[] = { 0, 1, 5, 8, 64 };
+	for (int rp = 0; rp < NRPAIRS; rp++) {
+		for (int a = 0; a < 4; a++) {
+			for (int rot = 0; rot <= d0s[a] + 2; rot++) {
+				for (int b = 0; b < 5; b++, idx++) {
+					if (d1s[b] == d0s[a]) continue;
+					if ((idx % vf_nshards) != vf_shard || !vf_want_case(idx)) continue;
+					// quick: half of the (rotation, new depth) cells per seed, both orders in thorough
+					bool sf = (vf_mix64(vf_seed ^ (uint64_t) idx * 7) & 1) != 0;
+					if (!vf_tier && (vf_mix64(vf_seed + (uint64_t) idx * 13) & 1) != 0) continue;
+					run_ring_case(idx, rp, d0s[a], rot, d1s[b], sf);
+				}
+			}
+		}
+	}
+	return idx;
+}
+
 static void
 run_matrix(void)
 {
@@ -4324,6 +4463,7 @@ run_matrix(void)
 			}
 		}
 	}
+	(void) run_rings(idx + 1000000);
 }
 
 // ---------------------------------------------------------------- main
